@@ -153,3 +153,51 @@ def _f03a(w):
 FINDING_REPLAYS = {"F-C03a": _f03a}
 
 import contracts.c06b  # noqa: E402,F401  (_prepare_template: the component's data layer, shared with C06)
+
+
+# ------------------------------------------------------------------------------------------- replay on the real code
+@REG.replay(f"{MOD}:make_isolated_context_copy")
+def _replay_isolated_copy(model, ob):
+    """Contexts assembled from layer kinds (plain data, a forloop layer, inject keys at different depths incl. INSIDE a
+    forloop layer and shadowed ones, the component key): the copy must show every inject key / the component key with the
+    value the ORIGINAL shows (nearest wins), nothing else but built-ins (and - known finding F-C03a - the forloop layer),
+    and the original must be untouched"""
+    import itertools
+    from django.conf import settings
+    if not settings.configured:
+        from tests.django_test_setup import setup_test_config
+        setup_test_config({"autodiscover": False})
+    from django.template import Context
+    from django_components.context import make_isolated_context_copy
+    INJ = "_DJC_INJECT__"
+    kinds = {
+        "data": lambda n: {"x": n},
+        "inj_a": lambda n: {INJ + "a": f"A{n}"},
+        "inj_ab": lambda n: {INJ + "a": f"A{n}", INJ + "b": f"B{n}"},
+        "comp": lambda n: {"_DJC_COMPONENT_CTX": f"C{n}", "y": n},
+        "forloop": lambda n: {"forloop": {"counter": n}, "item": n},
+        "forloop_inj": lambda n: {"forloop": {"counter": n}, "item": n, INJ + "a": f"FA{n}"},
+    }
+    for n in range(1, 4):
+        for combo in itertools.product(kinds, repeat=n):
+            ctx = Context()
+            for j, k in enumerate(combo):
+                ctx.update(kinds[k](j))
+            before = [dict(d) for d in ctx.dicts]
+            cp = make_isolated_context_copy(ctx)
+            flat0, flat1 = ctx.flatten(), cp.flatten()
+            what = None
+            for key, val in flat0.items():
+                if (key.startswith(INJ) or key == "_DJC_COMPONENT_CTX") and (key not in flat1 or flat1[key] != val):
+                    what = f"{key}: original shows {val!r}, copy shows {flat1.get(key, '<missing>')!r}"
+            fl = next((d for d in reversed(before) if "forloop" in d), {})
+            for key in flat1:
+                if key in ("True", "False", "None") or key.startswith(INJ) or key == "_DJC_COMPONENT_CTX" or key in fl:
+                    continue
+                what = what or f"copy shows foreign key {key!r}"
+            if [dict(d) for d in ctx.dicts] != before:
+                what = what or "the original Context was modified"
+            if what:
+                return {"confirmed": True, "function": "make_isolated_context_copy", "inputs": {"layers (bottom to top)": [kinds[k](j) for j, k in enumerate(combo)]},
+                        "expected": "internal keys passed through with the original's values; nothing else leaks", "observed": what}
+    return {"confirmed": False}
